@@ -7,6 +7,7 @@ The Kani obligations kx_vec_target / kx_bytesmut_target are the bounded twins on
 `BytesMut` is an opaque type here; `extend_from_slice` is an ASSUMED contract proved by Kani
 (kx_m_extend_from_slice, allocation of 8 bytes).  For `Vec<u8>` the std contracts are vstd's."""
 from vx import Unit, Fn
+import _prophecy
 
 U = Unit("bufmut_targets", props=["C11"])
 U.assumptions = [
@@ -32,18 +33,8 @@ impl BytesMut {
     { unimplemented!() }
 }
 
-// the reading side (contract as in unit buf_core)
-pub trait Buf {
-    spec fn seq(&self) -> Seq<u8>;
-    spec fn wf(&self) -> bool;
-    fn remaining(&self) -> (r: usize) requires self.wf(), ensures r == self.seq().len();
-    fn chunk(&self) -> (r: &[u8]) requires self.wf(), ensures r@.is_prefix_of(self.seq()), (r@.len() == 0 <==> self.seq().len() == 0);
-    fn advance(&mut self, cnt: usize)
-        requires (*old(self)).wf(), cnt <= (*old(self)).seq().len(),
-        ensures (*final(self)).wf(), (*final(self)).seq() == (*old(self)).seq().skip(cnt as int);
-    fn has_remaining(&self) -> (r: bool) requires self.wf(), ensures r == (self.seq().len() > 0);
-}
-
+// the reading side (contract as in units buf_core / buf_copy, incl. the prophetic part)
+''' + _prophecy.TRAIT_TEXT + r'''
 pub open spec fn fill(val: u8, cnt: nat) -> Seq<u8> { Seq::new(cnt, |i: int| val) }
 ''')
 
@@ -56,23 +47,12 @@ spec fn content(&self) -> Seq<u8>;
 spec fn rem_of(&self) -> int;
 ''', fns={
     "remaining_mut": Fn(ret="r", spec="ensures r == self.rem_of(),"),
-    "put": Fn(spec="requires src.wf(),\nensures (*final(self)).content() == (*old(self)).content() + src.seq(),", **IMPORTED),
+    "put": Fn(spec=_prophecy.PUT_SPEC, **IMPORTED),
     "put_slice": Fn(spec="ensures (*final(self)).content() == (*old(self)).content() + src@,", **IMPORTED),
     "put_bytes": Fn(spec="requires (*old(self)).content().len() + cnt <= usize::MAX,\nensures (*final(self)).content() == (*old(self)).content() + fill(val, cnt as nat),", **IMPORTED),
 })
 
-PUT_LOOP = {1: """invariant
-    src.wf(),
-    self@ + src.seq() == old(self)@ + src0,
-decreases src.seq().len(),"""}
-PUT_HINTS = [("body_start", "", "let ghost src0 = src.seq();"),
-             ("loop_start", "1", "let ghost before = self@; let ghost rest = src.seq();"),
-             ("loop_end", "1", """proof {
-    assert(l > 0);
-    assert(rest =~= s@ + rest.skip(l as int));
-    assert(self@ + src.seq() =~= before + rest);
-}"""),
-             ("body_end", "", "proof { assert(self@ + src.seq() =~= self@); }")]
+PUT_LOOP, PUT_HINTS = _prophecy.PUT_LOOP, _prophecy.PUT_HINTS
 
 U.block("src/buf/buf_mut.rs", "impl BufMut for Vec<u8>", spec_items=r'''
 open spec fn content(&self) -> Seq<u8> { self@ }
